@@ -8,7 +8,9 @@ evidence/<id>.json.
 
 Exit codes: 0 property held on everything explored (known findings are printed as KNOWN-FINDING lines);
             1 at least one unlisted violation (VIOLATION property=<id> replay=<path>);
-            2 engine error (build failure, nondeterminism, worker crash): a broken check, never a violation.
+            2 engine error (build failure, nondeterminism, worker crash) and no confirmed violation: a broken check, never a violation.
+              (A candidate that does not reproduce in a fresh process is never printed as a VIOLATION; if other violations of the
+              same batch were confirmed by their fresh-process replays, those stand and the exit code is 1.)
 Environment: VERIF_SEED (default 20260929), VERIF_TIER (overrides the tier argument), VERIF_JOBS (default 16)."""
 import json, os, re, subprocess, sys, time, glob, struct
 
